@@ -384,7 +384,10 @@ def gen_cases(chk):
               "\\U0001F600", "\\U0010ffff", "\\U00110000", "\\U0000d800", "\\U00010000", "\\U0000ffff", "\\Uffffffff", "\\U0001F60",
               "\\101", "\\377", "\\400", "\\777", "\\8", "\\18", "\\1", "\\12", "\\128", "\\000", "\\0", "\\08", "\\1234",
               "é", "日本語", "😀", "a\tb", "\x01", "\x7f", "tab\there\\n", "a'b", "a\\\"b", "\\\"", "say \\\"hi\\\"", "a\\\\", "\\\\\\\\",
-              "a#b", "#", "a#", "##{", "a\\#b", "100%", "{}", "#}", "a\\", "a\\\\\\", "x\\ny\\tz\\\\w\\\"v", "\\a\\b\\f\\n\\r\\t\\v"]:
+              "a#b", "#", "a#", "##{", "a\\#b", "100%", "{}", "#}", "a\\", "a\\\\\\", "x\\ny\\tz\\\\w\\\"v", "\\a\\b\\f\\n\\r\\t\\v",
+              # an escaped backslash is one backslash and what follows it is plain text, whatever it looks like
+              "\\\\u{41}", "C:\\\\u{sers}\\\\u{beef}", "\\\\x41", "\\\\u0041", "\\\\U0001F600", "\\\\101", "\\\\n\\\\t", "\\\\\\\\u{41}", "a\\\\u{1F600}b",
+              "\\u{41}", "\\u{1F600}", "\\x{41}", "u{41}", "\\\\#", "\\\\\\#{"]:
         c.str_case(b)
     pool = (["\\" + e for e in 'abfnrtv\\"'] + ["\\x41", "\\xfe", "\\u00e9", "\\u20ac", "\\U0001F600", "\\101", "\\007", "é", "€", "#", "'", " ", "\t"] +
             list("abcXYZ019_-+*/(){}[]<>.,:;!?@$%^&|~`"))
